@@ -65,6 +65,16 @@ void   snoopy_tsrm_dtor ();
 
 
 /*
+ * Guard for calls into libc functions that hold a libc-internal lock which fork() does not release
+ * in the child (the time zone lock of localtime_r()/strftime()): fork() waits until no thread is
+ * inside such a call on Snoopy's behalf, so the child never inherits the lock in the locked state.
+ */
+void   snoopy_tsrm_libcGuard_enter ();
+void   snoopy_tsrm_libcGuard_leave ();
+
+
+
+/*
  * Getter functions
  */
 snoopy_configuration_t*    snoopy_tsrm_get_configuration    ();
